@@ -105,6 +105,23 @@ theorem request_roundtrip (method target host : Bytes) (port : Nat) (hs : Dic) (
   unfold header norm
   rw [this]; rfl
 
+/-! ## many clients in flight: each receives the response to its own request -/
+
+/-- **interleaving_local.**  Whatever the schedule of the per-connection handler threads, the state of connection `k`
+(what it has read, what it has answered) is the result of its own turns only: no turn of another connection shows. -/
+theorem interleaving_local (opt : Bool) (base : Bytes) (sched : List Nat) (s : Server) (k : Nat) :
+    runSched opt base sched s k = iterStep opt base (sched.count k) (s k) :=
+  runSched_conn opt base sched s k
+
+/-- **interleaving_independent.**  For every interleaving in which connection `k` gets its turns, the answers written
+on connection `k` are exactly those of serving that connection alone (`serveConn` on its own bytes): with any number of
+clients in flight, each receives the responses to its own requests. -/
+theorem interleaving_independent (opt : Bool) (base : Bytes) (sched : List Nat) (s : Server) (k : Nat)
+    (hout : (s k).out = []) (halive : (s k).alive = true) (hturns : sched.count k = (s k).plans.length) :
+    (runSched opt base sched s k).out = serveConn opt base (s k).plans (s k).inp := by
+  rw [runSched_conn, hturns, iterStep_serveConn opt base (s k).plans (s k) rfl, hout, halive]
+  simp
+
 /-- header names are looked up without regard to case (RFC 7230 §3.2): the handler finds a header under any spelling -/
 theorem header_lookup_case_insensitive (H : Dic) (n n' : Bytes) (h : lowerAscii n = lowerAscii n') : header H n = header H n' := by
   unfold header
